@@ -149,8 +149,27 @@ def _run_ground(text, timeout_ms):
     return 'unknown', out
 
 
+RETRY_CVC5_MS = int(os.environ.get('PYVC_RETRY_CVC5_MS', '60000'))
+RETRY_Z3_MS = int(os.environ.get('PYVC_RETRY_Z3_MS', '30000'))
+
+
+def solve_retry(task):
+    """second chance for an obligation the first pass left open: full budgets, no candidate shortcut.  Only 'unsat' changes anything:
+    it guards against a proof that merely ran out of time on a loaded machine being reported as a failing obligation."""
+    name, text, want = task
+    r2, i2 = _run_cvc5(text, RETRY_CVC5_MS)
+    if r2 == 'unsat':
+        return name, 'unsat', {'backend': 'cvc5', 'time': i2.get('time', 0), 'retry': True}
+    res, info = _run_z3(text, RETRY_Z3_MS)
+    if res == 'unsat':
+        return name, 'unsat', {'backend': 'z3', 'time': i2.get('time', 0) + info.get('time', 0), 'retry': True}
+    return name, 'unknown', {'backend': 'z3+cvc5', 'time': i2.get('time', 0) + info.get('time', 0)}
+
+
 def solve_one(task):
     name, text, want = task
+    if want == 'retry':
+        return solve_retry(task)
     total = 0.0
     if want != 'reach':
         # a short attempt with z3's own E-matching first: most obligations fall here in milliseconds
@@ -186,7 +205,7 @@ def solve_one(task):
     return name, 'unknown', out
 
 
-HARD_LIMIT_S = float(os.environ.get('PYVC_HARD_S', '150'))
+HARD_LIMIT_S = float(os.environ.get('PYVC_HARD_S', '170'))
 
 
 def _worker(task, conn):
